@@ -2087,3 +2087,38 @@ pub fn timeout0(rng: &mut Rng) -> Program {
     }
     g.prog
 }
+
+/// family "stoprace": several clients request a stop through their own clones at (nearly) the same instant and then
+/// submit a message: whoever was told Ok must not get that message handled (C04: stop is a barrier), whichever of
+/// the racing requests actually enqueued the Stop - on L2 that is a race of real threads
+pub fn stoprace(rng: &mut Rng) -> Program {
+    let mut g = G::new(rng);
+    let n = g.rng.range(2, 3) as usize;
+    // several actors per scenario: one race each (a scenario is expensive on L2, a race is not)
+    let nact = g.rng.range(3, 6) as usize;
+    for k in 0..nact {
+        let mut a = ActorDecl::plain(1 + k as u32);
+        a.mailbox = mailbox_kind(g.rng);
+        a.entry = *g.rng.pick(&[Entry::Spawn, Entry::Builder]);
+        a.holders = (0..n as u16).collect();
+        a.owner = (k % n) as u16;
+        g.prog.actors.push(a);
+    }
+    g.layout(n);
+    for k in 0..nact {
+        // something in the mailbox, so that the actor is busy while the stops race
+        if g.rng.chance(1, 2) {
+            g.prog.clients[0].push(Op::Send { slot: k as u16, script: vec![PStep::Yield], cancel: None });
+        }
+        for c in 0..n {
+            let j = g.rng.range(0, 60) as u16;
+            g.prog.clients[c].push(Op::Rendezvous { id: k as u8, parties: n as u8, jitter: j });
+            g.prog.clients[c].push(Op::Stop { slot: k as u16 });
+            g.prog.clients[c].push(Op::Call { slot: k as u16, script: vec![], cancel: None });
+        }
+    }
+    for c in 0..n {
+        g.prog.clients[c].push(Op::Await { slot: 0, by_ref: false });
+    }
+    g.prog
+}
